@@ -56,8 +56,9 @@ var (
 )
 
 const (
-	histExpire = 7200
-	nNames     = 6
+	histExpire    = 7200
+	histExpireBig = 604800 // a week: `expire` above the 24 h cap
+	nNames        = 6
 )
 
 type specT struct {
@@ -66,6 +67,7 @@ type specT struct {
 	tgt    string
 	ans    []rrItem
 	ns     []rrItem
+	extra  []rrItem // additional section (optional 6th field of a spec)
 	lease  *int64
 	scoped bool
 	mark   int
@@ -128,6 +130,9 @@ func parseUp(s string) map[string]*specT {
 			sp.lease = &v
 		}
 		sp.scoped = f[4] == "s"
+		if len(f) > 5 {
+			sp.extra = parseItems(f[5])
+		}
 		out[name] = sp
 	}
 	return out
@@ -196,6 +201,11 @@ func (sp *specT) build(req *dns.Msg, base int64) *dns.Msg {
 			sg.KeyTag = uint16(sp.mark)
 			sg.Labels = 4
 			m.Ns = append(m.Ns, sg)
+		}
+	}
+	for i, it := range sp.extra {
+		if it.kind == 'p' {
+			m.Extra = append(m.Extra, mkTXT(nso, it.ttl, fmt.Sprintf("m%d/x%d", sp.mark, i)))
 		}
 	}
 	if sp.scoped {
@@ -306,7 +316,11 @@ func histNew(f []string) vlib.Res {
 			runtime.Gosched()
 		}
 	}
-	cfg := &config.Config{CacheSize: 1024, Expire: histExpire, CookieSecret: "6c6f6f6b61686172646c6f6f6b6168617264"}
+	expire := uint32(histExpire)
+	if len(f) > 5 {
+		expire = uint32(vlib.AtoU64(f[5]))
+	}
+	cfg := &config.Config{CacheSize: 1024, Expire: expire, CookieSecret: "6c6f6f6b61686172646c6f6f6b6168617264"}
 	cfg.ECS = config.ECSConfig{Enabled: true, ForwardV4Max: 24, ForwardV6Max: 56, MinScopeV4: 24, MinScopeV6: 56,
 		ClientNetworks: []string{"198.51.100.0/24"}, CacheLimitTTL: config.Duration{Duration: time.Duration(capS) * time.Second}}
 	pf := 0
@@ -887,7 +901,7 @@ func (h *histT) register(chs []change, script map[string]*specT, recs []recTok, 
 			}
 			continue
 		}
-		all := append(append([]rrItem{}, sp.ans...), sp.ns...)
+		all := append(append(append([]rrItem{}, sp.ans...), sp.ns...), sp.extra...)
 		life, lim := oracleLifetime(all, sp.ns, sp.negative(), c.k.scoped, h.ecsCap, sp.lease)
 		// composed: anything re-cached from cached pieces inherits the
 		// shortest lifetime among them
@@ -900,6 +914,15 @@ func (h *histT) register(chs []change, script map[string]*specT, recs []recTok, 
 			// was consumed then, and it is bounded itself.
 			cachedAns := cachedAnswerPieces(recs)
 			holderSeen := false
+			for _, t := range chainOrder(recs) {
+				// a cached alias piece anywhere earlier in the chain may hold the copies
+				if t == c.k.tok {
+					break
+				}
+				if cachedAns[t] {
+					holderSeen = true
+				}
+			}
 			for _, t := range chainAfter(recs, c.k.tok) {
 				if !isNameTok(t) && t[0] != 's' {
 					continue
